@@ -136,11 +136,72 @@ pub fn run_lines(sh: &mut shell::Shell,
     cr_list
 }
 
+/// Substitute the positional parameters (`$1`, `${1}`, `$@`, ...) of a script
+/// line where they stand. Everything else is kept exactly as written, so that
+/// quotes, backslash escapes and operators mean what they mean outside scripts.
 fn expand_args(line: &str, args: &[String]) -> String {
-    let linfo = parsers::parser_line::parse_line(line);
-    let mut tokens = linfo.tokens;
-    expand_args_in_tokens(&mut tokens, args);
-    parsers::parser_line::tokens_to_line(&tokens)
+    let chars: Vec<char> = line.chars().collect();
+    let mut result = String::new();
+    // the quote we are inside of: ' " ` or none
+    let mut quote = '\0';
+    let mut i = 0;
+    while i < chars.len() {
+        let c = chars[i];
+        if c == '\\' && quote != '\'' {
+            result.push(c);
+            if i + 1 < chars.len() {
+                result.push(chars[i + 1]);
+            }
+            i += 2;
+            continue;
+        }
+        if c == '$' && quote != '\'' && quote != '`' {
+            // same shape as is_args_in_token(): \$\{?([0-9]+|@)\}?
+            let mut k = i + 1;
+            if k < chars.len() && chars[k] == '{' {
+                k += 1;
+            }
+            let key_start = k;
+            if k < chars.len() && chars[k] == '@' {
+                k += 1;
+            } else {
+                while k < chars.len() && chars[k].is_ascii_digit() {
+                    k += 1;
+                }
+            }
+            if k > key_start {
+                let key: String = chars[key_start..k].iter().collect();
+                if k < chars.len() && chars[k] == '}' {
+                    k += 1;
+                }
+                let value = if key == "@" {
+                    if args.len() > 1 { args[1..].join(" ") } else { String::new() }
+                } else {
+                    match key.parse::<usize>() {
+                        Ok(idx) if idx < args.len() => args[idx].clone(),
+                        _ => String::new(),
+                    }
+                };
+                if quote == '"' {
+                    result.push_str(&value.replace('"', "\\\""));
+                } else {
+                    result.push_str(&value);
+                }
+                i = k;
+                continue;
+            }
+        }
+        if quote == '\0' {
+            if c == '\'' || c == '"' || c == '`' {
+                quote = c;
+            }
+        } else if c == quote {
+            quote = '\0';
+        }
+        result.push(c);
+        i += 1;
+    }
+    result
 }
 
 /// verification hook: the script path's positional-parameter pass, as run_exp applies it
